@@ -217,12 +217,34 @@ def parallel(jobs, max_workers=None):
 # harness
 
 _built = {}
+BASE_RUSTFLAGS = ["--cfg", "memchr_verif", "--cfg", "verif_x86", "--check-cfg", "cfg(memchr_verif)", "--check-cfg", "cfg(verif_wasm)", "--check-cfg", "cfg(verif_x86)"]
+
+
+def build_simd128():
+    """The simd128 vehicle: cfg-rewritten copy of /repo's current src + emulated intrinsics (optional vehicle)."""
+    if "simd128" in _built:
+        return _built["simd128"]
+    p = subprocess.run([os.path.join(VERIF, "bin", "mk_simd128")], stdout=subprocess.PIPE, stderr=subprocess.STDOUT, text=True)
+    if p.returncode != 0:
+        raise ToolError("mk_simd128 failed: " + p.stdout[-2000:])
+    env = dict(os.environ)
+    env["CARGO_NET_OFFLINE"] = "true"
+    env["CARGO_TARGET_DIR"] = os.path.join(WORK, "target-simd128")
+    env["RUSTFLAGS"] = "--cfg memchr_verif --cfg verif_wasm --check-cfg cfg(memchr_verif) --check-cfg cfg(verif_wasm) --check-cfg cfg(verif_x86) --check-cfg cfg(verif_never)"
+    t0 = time.time()
+    p = subprocess.run(["cargo", "build", "--offline", "--quiet"], cwd=os.path.join(WORK, "simd128", "harness"), env=env,
+                       stdout=subprocess.PIPE, stderr=subprocess.STDOUT, text=True)
+    if p.returncode != 0:
+        raise ToolError("simd128 vehicle build failed:\n" + p.stdout[-3000:])
+    log("[build] simd128 vehicle %.1fs" % (time.time() - t0))
+    _built["simd128"] = os.path.join(WORK, "target-simd128", "debug", "verif-harness")
+    return _built["simd128"]
 
 
 def build_harness(profile="dev", features=None, rustflags_extra=None, target=None):
     """cargo build of the harness against /repo's working tree (path dependency),
     hooks on. Returns the binary path."""
-    key = (profile, tuple(features or ()), tuple(rustflags_extra or ()), target)
+    key = (profile, tuple(features or ()) if features is not None else None, tuple(rustflags_extra or ()), target)
     if key in _built:
         return _built[key]
     cmd = ["cargo", "build", "--offline", "--quiet"]
@@ -240,7 +262,7 @@ def build_harness(profile="dev", features=None, rustflags_extra=None, target=Non
         tdir = os.path.join(WORK, "target-" + tag)
     env["CARGO_TARGET_DIR"] = tdir
     if rustflags_extra:
-        env["RUSTFLAGS"] = " ".join(["--cfg", "memchr_verif", "--check-cfg", "cfg(memchr_verif)", "--check-cfg", "cfg(verif_wasm)"] + list(rustflags_extra))
+        env["RUSTFLAGS"] = " ".join(BASE_RUSTFLAGS + list(rustflags_extra))
     t0 = time.time()
     p = subprocess.run(cmd, cwd=HARNESS, env=env, stdout=subprocess.PIPE, stderr=subprocess.STDOUT, text=True)
     if p.returncode != 0:
